@@ -20,7 +20,7 @@ pub fn run_c02(ctx: &Ctx) {
     run_l2_part(ctx, "l2", Prop::C02, P_C02, ctx.tier.scale(240_000, 10),
         &[("saturated", 0.5), ("limit-constrained", 0.2), ("race-done", 0.1)],
         "some quiescent state had a non-empty backlog with every worker at its limit (the limit constrained dispatch), or a finish-before-count race happened on a saturated worker");
-    run_l4_part(ctx, crate::l4::Prop::C02, crate::l4::gen::P { pause: 0, inject: 0, panic: 0, stop: 0, busy: 0, uds: false, max_limit: 3 }, ctx.tier.scale(400, 4), &[("saturated-with-waiting", 0.2)], "every worker at its limit with a client still waiting");
+    run_l4_part(ctx, crate::l4::Prop::C02, crate::l4::gen::P { pause: 0, inject: 0, panic: 0, stop: 0, busy: 0, uds: false, max_limit: 3, taskpanic: 1 }, ctx.tier.scale(400, 4), &[("saturated-with-waiting", 0.2)], "every worker at its limit with a client still waiting");
 }
 
 pub fn replay_c02(ctx: &Ctx, v: &Value) -> i32 {
@@ -75,7 +75,7 @@ pub fn run_c03(ctx: &Ctx) {
     run_l2_part(ctx, "l2-with-faults", Prop::C03, P_C03_FAULT, ctx.tier.scale(120_000, 10),
         &[("fault-discovered", 0.4), ("finish-while-saturated-with-backlog", 0.1), ("replace", 0.3)],
         "as above, in histories where a worker died and was replaced (a live worker below its limit must still be used)");
-    run_l4_part(ctx, crate::l4::Prop::C03, crate::l4::gen::P { pause: 0, inject: 0, panic: 0, stop: 0, busy: 0, uds: false, max_limit: 3 }, ctx.tier.scale(400, 4), &[("release-while-saturated", 0.2)], "a held connection is released while every worker is at its limit and a client waits");
+    run_l4_part(ctx, crate::l4::Prop::C03, crate::l4::gen::P { pause: 0, inject: 0, panic: 0, stop: 0, busy: 0, uds: false, max_limit: 3, taskpanic: 2 }, ctx.tier.scale(400, 4), &[("release-while-saturated", 0.2), ("handler-panic-while-saturated", 0.08)], "a held connection is released while every worker is at its limit and a client waits");
 }
 
 pub fn replay_c03(ctx: &Ctx, v: &Value) -> i32 {
@@ -204,7 +204,7 @@ pub fn run_c05(ctx: &Ctx) {
     run_l2_part(ctx, "l2", Prop::C05, P_C05, ctx.tier.scale(200_000, 10),
         &[("pause", 0.4), ("inject-fatal", 0.2), ("inject-per-connection", 0.2), ("uds", 0.4)],
         "the schedule contains a pause or an injected accept error (fatal or per-connection)");
-    run_l4_part(ctx, crate::l4::Prop::C05, crate::l4::gen::P { pause: 3, inject: 3, panic: 0, stop: 0, busy: 0, uds: true, max_limit: 4 }, ctx.tier.scale(200, 4), &[("pause", 0.4), ("inject", 0.4), ("backoff-under-load", 0.08)], "the script contains a pause or an injected accept error (exercises the real poll_with loop, which the stepped driver duplicates)");
+    run_l4_part(ctx, crate::l4::Prop::C05, crate::l4::gen::P { pause: 3, inject: 3, panic: 0, stop: 0, busy: 0, uds: true, max_limit: 4, taskpanic: 0 }, ctx.tier.scale(200, 4), &[("pause", 0.4), ("inject", 0.4), ("backoff-under-load", 0.08)], "the script contains a pause or an injected accept error (exercises the real poll_with loop, which the stepped driver duplicates)");
 }
 
 pub fn replay_c05(ctx: &Ctx, v: &Value) -> i32 {
@@ -222,7 +222,7 @@ pub fn run_c08(ctx: &Ctx) {
     run_l2_part(ctx, "l2", Prop::C08, P_C08, ctx.tier.scale(200_000, 10),
         &[("fault-discovered", 0.4), ("replace", 0.3), ("late-finish-of-dead-worker", 0.05), ("kill-saturated", 0.03), ("kill-idle", 0.2)],
         "a kill followed by a connect + step that discovers the fault");
-    run_l4_part(ctx, crate::l4::Prop::C08, crate::l4::gen::P { pause: 0, inject: 0, panic: 4, stop: 0, busy: 0, uds: false, max_limit: 2 }, ctx.tier.scale(300, 4), &[("worker-panic", 0.3)], "a worker was killed by a panic inside Service::call (guards dropped while unwinding)");
+    run_l4_part(ctx, crate::l4::Prop::C08, crate::l4::gen::P { pause: 0, inject: 0, panic: 4, stop: 0, busy: 0, uds: false, max_limit: 2, taskpanic: 1 }, ctx.tier.scale(300, 4), &[("worker-panic", 0.3)], "a worker was killed by a panic inside Service::call (guards dropped while unwinding)");
 }
 
 pub fn replay_c08(ctx: &Ctx, v: &Value) -> i32 {
@@ -248,7 +248,7 @@ pub fn run_c01(ctx: &Ctx) {
         l3gen::c07_strategy,
         |c| crate::l3::run_case(c, crate::l3::Prop::C01),
     );
-    run_l4_part(ctx, crate::l4::Prop::C01, crate::l4::gen::P { pause: 1, inject: 0, panic: 0, stop: 0, busy: 0, uds: true, max_limit: 3 }, ctx.tier.scale(300, 4), &[("served-by>=2-workers", 0.2), ("registered-by-address", 0.15), ("registered-by-address-list", 0.15)], "connections were served by at least two worker threads or two listeners exist (each connection is served exactly once by the service of the listener it connected to)");
+    run_l4_part(ctx, crate::l4::Prop::C01, crate::l4::gen::P { pause: 1, inject: 0, panic: 0, stop: 0, busy: 0, uds: true, max_limit: 3, taskpanic: 1 }, ctx.tier.scale(300, 4), &[("served-by>=2-workers", 0.2), ("registered-by-address", 0.15), ("registered-by-address-list", 0.15)], "connections were served by at least two worker threads or two listeners exist (each connection is served exactly once by the service of the listener it connected to)");
 }
 
 pub fn replay_c01(ctx: &Ctx, v: &Value) -> i32 {
@@ -354,7 +354,7 @@ pub fn run_c06(ctx: &Ctx) {
         l3gen::c06_strategy,
         |c| l3::run_case(c, l3::Prop::C06),
     );
-    run_l4_part(ctx, crate::l4::Prop::C06, crate::l4::gen::P { pause: 1, inject: 0, panic: 0, stop: 1, busy: 2, uds: false, max_limit: 3 }, ctx.tier.scale(96, 4), &[("worker-thread-busy", 0.04), ("stop-with-held-connections", 0.25), ("graceful-stop", 0.2), ("forced-stop", 0.2)], "a stop was issued while connections were held open");
+    run_l4_part(ctx, crate::l4::Prop::C06, crate::l4::gen::P { pause: 1, inject: 0, panic: 0, stop: 1, busy: 2, uds: false, max_limit: 3, taskpanic: 1 }, ctx.tier.scale(96, 4), &[("worker-thread-busy", 0.04), ("stop-with-held-connections", 0.25), ("graceful-stop", 0.2), ("forced-stop", 0.2)], "a stop was issued while connections were held open");
     run_c06_signals(ctx);
 }
 
@@ -427,7 +427,7 @@ pub fn replay_c10(ctx: &Ctx, v: &Value) -> i32 {
 
 // ---- L4: end-to-end through the public API -----------------------------------------------------
 
-const RULE_L4: &str = "L4: op scripts (connect a client that sends its id / release a held connection / settle = wait until the server has taken everything it has capacity for / pause / resume / inject an accept error / make the next Service::call panic / sleep / stop graceful|forced, once or twice, future polled or dropped) against a real Server (1..3 workers, limit 1..4, 1..2 listeners TCP/UDS registered through listen()/listen_uds(), bind()/bind_uds() or bind() with a two-address list (two sockets, one factory; clients alternate between the addresses), shutdown_timeout 1..2 s) with real threads and real time; the service counts connections in progress per worker thread, greets the client and holds the connection until released; time bounds of 5 s (re-judged twice alone before counting)";
+const RULE_L4: &str = "L4: op scripts (connect a client that sends its id / release a held connection / settle = wait until the server has taken everything it has capacity for / pause / resume / inject an accept error / make the next Service::call panic / finish a held connection by a panic inside its handler future / sleep / stop graceful|forced, once or twice, future polled or dropped) against a real Server (1..3 workers, limit 1..4, 1..2 listeners TCP/UDS registered through listen()/listen_uds(), bind()/bind_uds() or bind() with a two-address list (two sockets, one factory; clients alternate between the addresses), shutdown_timeout 1..2 s) with real threads and real time; the service counts connections in progress per worker thread, greets the client and holds the connection until released; time bounds of 5 s (re-judged twice alone before counting)";
 
 fn run_l4_part(ctx: &Ctx, prop: crate::l4::Prop, p: crate::l4::gen::P, cases: u64, floors: &[(&str, f64)], nt: &str) {
     use crate::l4;
